@@ -138,6 +138,13 @@ fn build_termgen(ctx: &mut GenCtx, outside: bool) -> TermGen {
     tg.generalized = false;
     tg.max_depth = 2;
     tg.lexicals = (0..12).map(|_| gen_lex(ctx, &classes)).collect();
+    for l in ["a\n", "a\r", "a\"", "a\\"] {
+        if ctx.rng.chance(1, 2) {
+            tg.lexicals.push(l.to_string());
+        }
+    }
+    let n_end = tg.lexicals.iter().filter(|l| l.ends_with(['\n', '\r', '"', '\\'])).count();
+    ctx.stats.add("lex.ends_escapable", n_end as u64);
     tg.bnodes = (0..6).map(|_| gen_label(ctx)).collect();
     tg.bnodes.extend(["b0", "x.y", "0", "a.1", "a\u{b7}", "a-"].iter().map(|s| s.to_string()));
     tg.tags = (0..4).map(|_| ctx.rng.pick(TAGS).to_string()).collect();
@@ -350,9 +357,20 @@ pub fn generate(ctx: &mut GenCtx) {
             }
         }
     }
+    // every escapable character as the LAST byte of the text, after prefixes of every kind (the end test
+    // of quoted_string's loop must come after the escape arm)
+    for last in ["\n", "\r", "\"", "\\"] {
+        for pre in ["", "a", "ab", "é", "\u{1F600}", "a\n", "\"\\", "\r\r", "\\", "a\"b"] {
+            ctx.emit(&format!("e {}", hex(&format!("{}{}", pre, last))));
+            ctx.stats.bump("esc.last_byte_escapable");
+        }
+    }
     let n_esc = if ctx.thorough { 20000 } else { 300 };
     for _ in 0..n_esc {
         let s = gen_lex(ctx, &classes);
+        if s.ends_with(['\n', '\r', '"', '\\']) {
+            ctx.stats.bump("esc.random_ends_escapable");
+        }
         ctx.emit(&format!("e {}", hex(&s)));
         ctx.stats.bump("esc.random");
     }
